@@ -592,6 +592,7 @@ type Transition struct {
 	Out   string // Coq term of type output
 	Ref   *Node
 	Specs []int
+	Obs   []int
 	Info  map[string]interface{}
 	Res   runRes
 }
@@ -613,7 +614,11 @@ func (t *Transition) coq() string {
 	if out == "" {
 		out = "ONone"
 	}
-	return fmt.Sprintf("mkT %d %s\n (%s)\n (%s) %s\n (%s)\n (%s) (%s) %s", t.ID, clist(sems), t.Pre.coq(), t.Cmd.coq(), cbool(t.OK), t.Post.coq(), out, ref, clist(sp))
+	ob := make([]string, len(t.Obs))
+	for i, s := range t.Obs {
+		ob[i] = fmt.Sprint(s)
+	}
+	return fmt.Sprintf("mkT %d %s\n (%s)\n (%s) %s\n (%s)\n (%s) (%s) %s %s", t.ID, clist(sems), t.Pre.coq(), t.Cmd.coq(), cbool(t.OK), t.Post.coq(), out, ref, clist(sp), clist(ob))
 }
 
 // do runs one dud command and records the transition.
@@ -625,6 +630,13 @@ func (p *Project) do(c Cmd, sems []CmdSem, specs []int, ref *Node, pre *World) (
 	post := p.observe()
 	t := &Transition{Sems: sems, Pre: pre, Cmd: c, OK: res.Exit == 0, Post: post, Ref: ref, Specs: specs, Res: res,
 		Info: map[string]interface{}{"cmd": strings.Join(append([]string{"dud"}, c.argv()...), " "), "cwd": c.Cwd, "exit": res.Exit}}
+	if res.Exit != 0 {
+		e := strings.TrimSpace(res.Stderr)
+		if len(e) > 300 {
+			e = e[len(e)-300:]
+		}
+		t.Info["stderr"] = e
+	}
 	if c.Kind == "status" && res.Exit == 0 {
 		t.Out, _ = parseStatusDebug(res.Stdout)
 	}
